@@ -1460,6 +1460,16 @@ def run(tier, res, force_search=False):
             problems_all.append((p, {"oracle": "tas", "tas": t, "tasmin": lo, "tasmax": hi, "family": "tas-forward", "flavour": "numpy-scalar", "detail": d}))
         res.count(("scalar", t, lo, hi), True)
 
+    # long records (own PRNG stream; see LONG RECORDS)
+    lrng = random.Random(C.seed() * 7919 + 1804)
+    long_ns = [2 ** e + d for e in (10, 11, 12, 13) for d in (-1, 0, 1)] + [lrng.randint(1000, 20000) for _ in range(4 if tier == "quick" else 40)]
+    for n_long in long_ns:
+        lc = {"oracle": "long", "family": "long-record", "n": n_long, "trailing": list(lrng.choice([(), (2, 3), (1, 1)])), "np_seed": lrng.randint(0, 2**31 - 2)}
+        for p, d in oracle_long(lc):
+            problems_all.append((p + f" (leading-axis length {n_long})", {**lc, "detail": d}))
+        res.count(("long", n_long, tuple(lc["trailing"])), True, sample=lc)
+    res.extra["oracle_long_record_lengths"] = len(long_ns)
+
     mismatches = []
     try:
         out = C.run_driver("DrvConvert", lines)
@@ -1515,6 +1525,27 @@ def run(tier, res, force_search=False):
     return res
 
 
+# ---- LONG RECORDS (session 4, after seeded change C18-19): "arrays of any shape" includes daily records of many years; the leading-axis lengths
+# are taken around powers of two (block sizes of a chunked implementation) and at random.  Inputs are rebuilt from (np_seed, n, trailing), so the
+# replay file stays small.  Own PRNG stream.
+def long_case(lc):
+    nprs = np.random.RandomState(lc["np_seed"])
+    shape = (lc["n"],) + tuple(lc["trailing"])
+    mn = nprs.randint(-40 * 64, 300 * 64, size=shape) / 64.0
+    rg = nprs.randint(1, 30 * 64, size=shape) / 64.0
+    sk = nprs.randint(0, 65, size=shape) / 64.0
+    tas = mn + sk * rg
+    pr = nprs.randint(1, 200 * 64, size=shape) / 64.0
+    prsn = pr * nprs.randint(1, 65, size=shape) / 64.0
+    return tas, mn, mn + rg, rg, sk, pr, prsn
+
+
+def oracle_long(lc):
+    tas, mn, mx, rg, sk, pr, prsn = long_case(lc)
+    return oracle_tas(tas, mn, mx) + oracle_order(tas, rg, sk) + oracle_pr(pr, prsn)
+
+
+
 def replay(data):
     """re-run the oracle of a replay file on the real code: exit 1 if the violation reproduces"""
     fi = data.get("failing_input")
@@ -1549,6 +1580,8 @@ def replay(data):
         probs = oracle_tas(A("tas"), A("tasmin"), A("tasmax"))
     elif fi["oracle"] == "order":
         probs = oracle_order(A("tas"), A("tasrange"), A("tasskew"))
+    elif fi["oracle"] == "long":
+        probs = oracle_long(fi)
     else:
         probs = oracle_pr(A("pr"), A("prsn"))
     for p, d in probs:
